@@ -115,6 +115,9 @@ Proof. vm_compute. reflexivity. Qed.
 (* the example is an instance of the theorems' hypotheses *)
 Example e2e_example_cfg_ok : cfg_ok ex_cfg_a /\ cfg_ok ex_cfg_b.
 Proof.
-  unfold cfg_ok, ex_cfg_a, ex_cfg_b, wipv4_HEADER_LEN, wtcp_HEADER_LEN. cbn [c_tx_storage c_mtu].
-  assert (l_len (repeat 0 64) = 64) by (vm_compute; reflexivity). lia.
+  unfold cfg_ok, ex_cfg_a, ex_cfg_b. cbn [c_tx_storage c_mtu c_cc].
+  assert (l_len (repeat 0 64) = 64) by (vm_compute; reflexivity).
+  split; (split; [lia|]; split; [lia|]).
+  - exact I.
+  - vm_compute. intuition congruence.
 Qed.
